@@ -252,6 +252,7 @@ func main() {
 	seed := flag.Uint64("seed", 1, "")
 	nseq := flag.Int("nseq", 400, "random sequences under sorted/min/max")
 	small := flag.Bool("small", false, "reduced pool (quick tier)")
+	nbands := flag.Int("bands", 24, "magnitude bands 2^20..2^1023: an integral float with a random mantissa, the equal Int and their neighbours")
 	flag.Parse()
 	r := hx.NewRand(*seed)
 	thread := &starlark.Thread{Name: "c11"}
@@ -314,16 +315,74 @@ func main() {
 		dict(aStr("a"), nest(9, one, true)), dict(aStr("a"), nest(10, one, true)))
 	addm(set(), set(one), set(onef), set(one, two), set(two, one), set(aStr("a")), set(one, two, aI(3)))
 
+	// ---- magnitude bands: for k in 53..1023 an integral float m*2^(k-52) with a random odd
+	// 53-bit mantissa (so the low bits of the equal Int are not zero until the shift exceeds
+	// the word), the exactly equal Int, Int+-1, the neighbouring floats and the Int equal to one
+	// of them.  group[i] = band number of pool entry i (-1: base pool).
+	group := make([]int, len(pool))
+	for i := range group {
+		group[i] = -1
+	}
+	bands := []int{53, 54, 31, 63, 64, 65, 32, 83, 84, 85, 52, 95, 96, 127, 128, 62, 66, 255, 256, 30, 511, 1000, 1022, 1023, 55, 70, 86, 97, 512, 40, 47, 33}
+	seenBand := map[int]bool{}
+	for _, b := range bands {
+		seenBand[b] = true
+	}
+	for len(bands) < *nbands {
+		b := 20 + r.Intn(1023-20+1)
+		if !seenBand[b] {
+			seenBand[b] = true
+			bands = append(bands, b)
+		}
+	}
+	if len(bands) > *nbands {
+		// keep the word-boundary bands, fill the rest by the seed
+		keep := bands[:0:0]
+		for _, b := range bands {
+			if len(keep) < *nbands {
+				keep = append(keep, b)
+			}
+		}
+		bands = keep
+	}
+	for gi, k := range bands {
+		m := (uint64(1) << 52) | (r.Uint64() & (1<<52 - 1)) | 1
+		f := math.Ldexp(float64(m), k-52)
+		if k < 52 {
+			// below 2^53: a (k+1)-bit odd integer, exactly representable
+			f = float64((uint64(1) << uint(k)) | (r.Uint64() & (1<<uint(k) - 1)) | 1)
+		}
+		if r.Bool() {
+			f = -f
+		}
+		toInt := func(x float64) *big.Int { z, _ := new(big.Float).SetFloat64(x).Int(nil); return z }
+		fup, fdn := math.Nextafter(f, math.Inf(1)), math.Nextafter(f, math.Inf(-1))
+		iv := toInt(f)
+		ms := []mk{aFloat(f), aInt(iv), aInt(add(iv, 1)), aInt(add(iv, -1)), aFloat(fup), aFloat(fdn)}
+		if !math.IsInf(fup, 0) {
+			ms = append(ms, aInt(toInt(fup)))
+		}
+		if gi%4 == 0 {
+			ms = append(ms, tuple(aFloat(f), aStr("a")), tuple(aInt(iv), aStr("a")))
+		}
+		for _, x := range ms {
+			pool = append(pool, x)
+			group = append(group, k)
+		}
+	}
+
 	if *small {
 		// quick tier: keep every third atom-pool duplicate-magnitude value but all kinds
 		var p2 []mk
+		var g2 []int
 		for i, m := range pool {
 			if i < natoms && i%3 == 2 && m.d.T != "float" && m.d.T != "int" {
 				continue
 			}
 			p2 = append(p2, m)
+			g2 = append(g2, group[i])
 		}
-		pool = p2
+		pool, group = p2, g2
 	}
 
 	n := len(pool)
@@ -342,7 +401,7 @@ func main() {
 			s := fmt.Sprint(*it.hash)
 			hs = &s
 		}
-		hx.Emit(map[string]any{"kind": "pool", "i": i, "v": it.d, "hash": hs, "depth": it.depth, "cls": it.cls})
+		hx.Emit(map[string]any{"kind": "pool", "i": i, "v": it.d, "hash": hs, "depth": it.depth, "cls": it.cls, "grp": group[i]})
 	}
 	for s := range strs {
 		h, _ := starlark.String(s).Hash()
@@ -454,6 +513,11 @@ func main() {
 				continue
 			}
 			for k := 0; k < n; k++ {
+				// all triples of the base pool; band values: triples inside one band, and
+				// (band, band, anything) / (anything, band, band) chains through an equal pair
+				if !(group[i] == group[j] || group[j] == group[k]) {
+					continue
+				}
 				ntr++
 				if eqij && at(j, k, oEQ) == 'T' && at(i, k, oEQ) != 'T' {
 					violate("eq_trans", fmt.Sprintf("x==y, y==z but x==z gives %c", at(i, k, oEQ)), i, j, k)
